@@ -89,6 +89,15 @@ def _real(case, F, G, Bc):
         f1, f2 = np.ascontiguousarray(F).copy(), np.ascontiguousarray(F).copy()
         out['_extra']['thopen:out=alias-f'] = (mh.morph.tophat_open(f1, Bc, out=f1), f1, 'thopen')
         out['_extra']['thclose:out=alias-f'] = (mh.morph.tophat_close(f2, Bc, out=f2), f2, 'thclose')
+        # in place on the image (and, for cerode, on the condition): accepted by _get_output; since fix be1beaf the wrappers copy
+        # the input the kernel would otherwise read while overwriting it
+        f3, f4, f5, g5 = (np.ascontiguousarray(F).copy() for _ in range(3)), None, None, None
+        f3, f4, f5 = f3
+        g5 = np.ascontiguousarray(G).copy()
+        out['_extra']['open:out=alias-f'] = (mh.open(f3, Bc, out=f3), f3, 'open')
+        out['_extra']['close:out=alias-f'] = (mh.close(f4, Bc, out=f4), f4, 'close')
+        out['_extra']['cerode:out=alias-f'] = (mh.cerode(f5, G, Bc, out=f5), f5, 'cerode')
+        out['_extra']['cerode:out=alias-g'] = (mh.cerode(F, g5, Bc, out=g5), g5, 'cerode')
     out['cerode'] = mh.cerode(F, G, Bc)
     out['cdilate'] = mh.cdilate(F, G, Bc, case['n'])
     out['thopen'] = mh.morph.tophat_open(F, Bc)
